@@ -377,4 +377,48 @@ Proof.
     constructor; [exact Logic.I|exact IH].
 Qed.
 
+
+(* ---------- homogeneity of the group kernel (algebraic core of Gibbs-Duhem for the residual part) ----------
+   group_activity_coefficients depends on the composition only through the group fractions, which are
+   homogeneous of degree 0: scaling every amount by l leaves the result unchanged.  Stated for any carrier whose
+   operations satisfy the four identities used (they hold in a field for l <> 0). *)
+Section Homogeneity.
+Variable l : A.
+Hypothesis mul_swap : forall a b, kmul K a (kmul K l b) = kmul K l (kmul K a b).
+Hypothesis mul_add : forall a b, kmul K l (kadd K a b) = kadd K (kmul K l a) (kmul K l b).
+Hypothesis mul_zero : kmul K l (kq K 0) = kq K 0.
+Hypothesis div_cancel : forall a b, kdiv K (kmul K l a) (kmul K l b) = kdiv K a b.
+
+Lemma ksum_scale ys : ksum K (map (kmul K l) ys) = kmul K l (ksum K ys).
+Proof.
+  unfold ksum. induction ys as [|y t IH]; simpl; [symmetry; exact mul_zero|].
+  rewrite IH. symmetry. apply mul_add.
+Qed.
+
+Lemma map2_scale_r (a x : list A) : map2 (kmul K) a (map (kmul K l) x) = map (kmul K l) (map2 (kmul K) a x).
+Proof.
+  revert x; induction a as [|u a IH]; intros [|v x]; simpl; auto. rewrite mul_swap, IH. reflexivity.
+Qed.
+
+Lemma vdot_scale (row x : list A) : vdot K row (map (kmul K l) x) = kmul K l (vdot K row x).
+Proof. unfold vdot. rewrite map2_scale_r. apply ksum_scale. Qed.
+
+Lemma matvec_scale (m : list (list A)) x : matvec K m (map (kmul K l) x) = map (kmul K l) (matvec K m x).
+Proof. unfold matvec. rewrite map_map. apply map_ext. intros row. apply vdot_scale. Qed.
+
+Lemma qfractions_scale (Qs W : list A) :
+  bc_10 (kdiv K) (bc_11 (kmul K) Qs (map (kmul K l) W)) (ksum K (bc_11 (kmul K) Qs (map (kmul K l) W))) =
+  bc_10 (kdiv K) (bc_11 (kmul K) Qs W) (ksum K (bc_11 (kmul K) Qs W)).
+Proof.
+  unfold bc_11, bc_10. rewrite map2_scale_r, ksum_scale, map_map. apply map_ext. intros u. apply div_cancel.
+Qed.
+
+Lemma gac_homogeneous x cg lc Qs psis cQfs gpsis :
+  group_activity_coefficients K (map (kmul K l) x) cg lc Qs psis cQfs gpsis =
+  group_activity_coefficients K x cg lc Qs psis cQfs gpsis.
+Proof.
+  unfold group_activity_coefficients. rewrite matvec_scale. rewrite qfractions_scale. reflexivity.
+Qed.
+End Homogeneity.
+
 End Generic.
